@@ -1151,5 +1151,11 @@ def problem_updates(ctx):
     return res
 
 
-RULES = [problem_updates, var_pairing, not_worse, update_fixpoint, bounds_honoured, index_edit, c17_coating_media, c01_init_stores, c01_pickup, operand_chain, apply_result, push_before_run, undo_updates, merit, scale_inverse,
+
+def no_stale(ctx):
+    from .common import stale_cache
+    return stale_cache(ctx, 'NO-STALE-STATE', [],
+                       'the optimiser works on values of an earlier state of the lens', min_methods=0)
+
+RULES = [no_stale, problem_updates, var_pairing, not_worse, update_fixpoint, bounds_honoured, index_edit, c17_coating_media, c01_init_stores, c01_pickup, operand_chain, apply_result, push_before_run, undo_updates, merit, scale_inverse,
          get_set_symmetry, var_dispatch, bounds_units]
